@@ -33,10 +33,48 @@ point is fingerprinted again later: it must not change unless its own destinatio
 """
 import json
 import os
+import re
+import shutil
 from concurrent.futures import ThreadPoolExecutor
+
+import vlib
 
 S = "Histogram"
 U = 1 << 20
+# address-space limit of every harness subprocess.  A correct tree stays below 1 GiB (the harness reports the memory
+# it obtained from the OS: counters *_harness_sys_mb); a broken size bound makes one Record call allocate without limit
+# (at scale 20 the distance between two float64 values is up to 2^31 buckets), which must end in a verdict, not in the
+# machine's OOM killer.
+MEM_CAP = 8 << 30
+AGG_FRAME = re.compile(r"go\.opentelemetry\.io/otel/sdk/metric/internal/aggregate\.(\S+?)\(")
+
+
+def run_capped(ctx, cmd, tag, direction, timeout=1800):
+    """ctx.run under the address-space limit, with a progress file naming the scenario being executed.  Returns the
+    CompletedProcess, or None after reporting a violation: the process died of memory exhaustion INSIDE the SDK's
+    aggregation code (Go's fatal error prints the allocating goroutine's stack).  Any other death is inconclusive."""
+    prog = os.path.join(ctx.work, "progress-%s.txt" % tag)
+    if os.path.exists(prog):
+        os.remove(prog)
+    full = (["prlimit", "--as=%d" % MEM_CAP] if shutil.which("prlimit") else []) + list(cmd)
+    p = ctx.run(full, timeout=timeout, env={"VERIF_PROGRESS": prog}, ok_codes=range(-255, 256))
+    if p.returncode == 0:
+        return p
+    err = p.stderr or ""
+    oom = "out of memory" in err or "cannot allocate memory" in err or p.returncode == -9
+    frames = AGG_FRAME.findall(err[err.find("fatal error"):] if "fatal error" in err else err)
+    if oom and frames:
+        doing = open(prog).readline().strip() if os.path.exists(prog) else "(no progress file)"
+        fatal = [l for l in err.splitlines() if "out of memory" in l or "cannot allocate" in l][:3]
+        ctx.violation({"dir": direction, "sub": "expl" if "hist" in frames[0].lower() and "expo" not in frames[0].lower() else "expo",
+                       "why": "unbounded-allocation", "frame": frames[0]},
+                      replay={"executing": doing[:20000], "fatal": fatal, "aggregate_frames": frames[:6], "rc": p.returncode,
+                              "memory_cap_bytes": MEM_CAP, "cmd": [c if len(c) < 300 else c[:300] + "..." for c in cmd],
+                              "note": "the harness subprocess ran out of memory inside the SDK while executing the scenario in "
+                                      "'executing' (an allocation no size-bounded histogram can need)"})
+        return None
+    raise vlib.Inconclusive("harness rc=%d (%s): %s\nstderr tail: %s" % (p.returncode, "memory exhausted outside the SDK's aggregation code"
+                                                                         if oom else "died", " ".join(cmd[:6]), err[-3000:]))
 
 
 # ---------------------------------------------------------------- constants for TLC (expo)
@@ -64,6 +102,8 @@ def expo_vals(maxscale, variant, small):
               val(1, -3 * U - 1), val(-1, g), val(0, 0)]
         if small:
             vs = [vs[i] for i in (0, 1, 2, 3, 5, 6, 7, 8)]
+    elif variant == "N":              # mirror image of A: negative-dominant, a single positive value, zero
+        vs = [val(-v["sg"], v["b"]) for v in expo_vals(maxscale, "A", small)]
     elif variant == "B":              # extremes: smallest subnormal, subnormal range, largest float
         vs = [val(1, -1074 * U - 1), val(1, -1030 * U + 7), val(1, -1), val(1, 0), val(1, 1024 * U - 1),
               val(-1, 1023 * U + 5), val(-1, -1022 * U - 1), val(0, 0)]
@@ -92,6 +132,8 @@ def expo_configs(tier, seed):
                 full.append(dict(maxsize=ms, maxscale=sc, variant=var))
         for sc in (20, 0, -10):
             full.append(dict(maxsize=ms, maxscale=sc, variant="B"))
+        for sc in (20, 0):
+            full.append(dict(maxsize=ms, maxscale=sc, variant="N"))
     for i, c in enumerate(full):
         c["cum"] = (i % 2 == 0)
         c["nominmax"] = (i % 4 == 1)      # AggregationBase2ExponentialHistogram.NoMinMax
@@ -107,7 +149,11 @@ def expo_configs(tier, seed):
         return out
     # quick: the underflow configuration always, plus a seeded sample
     must = [dict(maxsize=1, maxscale=20, variant="A", cum=True, steps=3, small=False, nominmax=False, nosum=False),
-            dict(maxsize=2, maxscale=0, variant="B", cum=False, steps=3, small=False, nominmax=True, nosum=True)]
+            dict(maxsize=2, maxscale=0, variant="B", cum=False, steps=3, small=False, nominmax=True, nosum=True),
+            # negative measurements wider than the positive ones / negative only, at small scales (a size bound that
+            # looks at the wrong sign shows as too-many-buckets here, without any large allocation)
+            dict(maxsize=2, maxscale=0, variant="C", cum=True, steps=3, small=True, nominmax=False, nosum=False),
+            dict(maxsize=4, maxscale=-2, variant="N", cum=False, steps=3, small=True, nominmax=False, nosum=False)]
     rest = [c for c in full if not (c["maxsize"] == 1 and c["maxscale"] == 20 and c["variant"] == "A")]
     pickd = [rest[(seed * 7 + k * 11) % len(rest)] for k in range(5)]
     out = must + [dict(c, steps=3 if k else 4, small=(k == 0)) for k, c in enumerate(pickd)]
@@ -179,7 +225,10 @@ def report_viols(ctx, viols, trace_path, direction, src=None, worlds=None):
 def merge_counters(ctx, res, prefix=""):
     for k, v in res["counters"].items():
         d = ctx.extra.setdefault("counters", {})
-        d[prefix + k] = d.get(prefix + k, 0) + v
+        if k.endswith("harness_sys_mb"):
+            d[prefix + k] = max(d.get(prefix + k, 0), v)      # peak, not a sum
+        else:
+            d[prefix + k] = d.get(prefix + k, 0) + v
 
 
 def run(ctx):
@@ -234,8 +283,10 @@ def run(ctx):
             out = os.path.join(ctx.work, "replay-%s-%d.json" % (name, rep))
             tr = os.path.join(ctx.work, "diff-%s-%d.ndjson" % (name, rep))
             cfgj = dict(cfgb, quant=(rep <= 4)) if kind == "expl" else cfgb
-            ctx.run([binp, "replay", "-kind", kind, "-edges", r["edges_file"], "-cfg", json.dumps(cfgj), "-vals", json.dumps(hvals),
-                     "-rep", str(rep), "-trace", tr, "-out", out], timeout=3000)
+            if run_capped(ctx, [binp, "replay", "-kind", kind, "-edges", r["edges_file"], "-cfg", json.dumps(cfgj), "-vals",
+                                json.dumps(hvals), "-rep", str(rep), "-trace", tr, "-out", out], "%s-%d" % (name, rep), "replay",
+                          timeout=3000) is None:
+                continue     # died inside the SDK: reported; nothing of this replay is usable
             runs.append((rep, cfgj, json.load(open(out)), tr))
         if thorough:
             os.remove(r["edges_file"])  # (tlc.out of the run keeps the EDGE lines)
@@ -357,13 +408,17 @@ def run(ctx):
             j["path"] = os.path.join(ctx.work, "worlds-%d.ndjson" % j["bt"])
             j["desc"] = os.path.join(ctx.work, "worlds-desc-%d.json" % j["bt"])
             resf = os.path.join(ctx.work, "worlds-%d.json" % j["bt"])
-            ctx.run([binp, "worlds", "-n", str(nw), "-batch", str(j["bt"]), "-trace", j["path"], "-res", resf, "-worlds", j["desc"]],
-                    timeout=1800)
+            if run_capped(ctx, [binp, "worlds", "-n", str(nw), "-batch", str(j["bt"]), "-trace", j["path"], "-res", resf, "-worlds",
+                                j["desc"]], "worlds-%d" % j["bt"], "worlds") is None:
+                j["dead"] = True
+                return j
             j["res"] = json.load(open(resf))
         elif j["kind"] == "random":
             j["path"] = os.path.join(ctx.work, "trace.ndjson")
             resf = os.path.join(ctx.work, "random.json")
-            ctx.run([binp, "random", "-n", str(n), "-trace", j["path"], "-res", resf], timeout=1800)
+            if run_capped(ctx, [binp, "random", "-n", str(n), "-trace", j["path"], "-res", resf], "random", "random") is None:
+                j["dead"] = True
+                return j
             j["res"] = json.load(open(resf))
         j["viols"], j["accepted"] = ctx.validate_trace(S, "Trace_Hist", "Trace_Hist.cfg", j["path"], timeout=3600,
                                                        name="trace-%s-%d" % (j["kind"], j.get("bt", vjobs.index(j))))
@@ -374,6 +429,8 @@ def run(ctx):
     explained = set()
     wlines = 0
     for j in judged:
+        if j.get("dead"):
+            continue
         if j["kind"] == "replay":
             for v in j["viols"]:
                 src = next((s_ for a, b, s_ in j["src"] if a <= v["line"] <= b), None)
